@@ -56,8 +56,9 @@ fn mk() -> Pk {
 fn set_get(pk: &mut Pk, t: SystemTime) -> Result<SystemTime, String> {
     catch(|| {
         pk.p.summary_info_mut().set_creation_time(t);
-        pk.p.summary_info().creation_time().expect("creation time set")
+        pk.p.summary_info().creation_time()
     })
+    .and_then(|o| o.ok_or_else(|| "GETTER-NONE: creation_time() returned None right after set_creation_time @ -".to_string()))
 }
 
 fn set_get_reopen(t: SystemTime) -> Result<SystemTime, String> {
@@ -67,8 +68,9 @@ fn set_get_reopen(t: SystemTime) -> Result<SystemTime, String> {
         p.summary_info_mut().set_creation_time(t);
         let m = p.into_inner().expect("into_inner");
         let p = msi::Package::open(m).expect("open");
-        p.summary_info().creation_time().expect("creation time after reopen")
+        p.summary_info().creation_time()
     })
+    .and_then(|o| o.ok_or_else(|| "GETTER-NONE: creation_time() returned None after save + reopen @ -".to_string()))
 }
 
 /// Checks one point; returns (class, violation).
@@ -79,6 +81,7 @@ fn check_point(ns: i128, get: &mut dyn FnMut(SystemTime) -> Result<SystemTime, S
     };
     let r = match get(t) {
         Ok(r) => r,
+        Err(p) if p.starts_with("GETTER-NONE") => return (8, Some((format!("time-set-but-getter-returns-none:{}", via), format!("{} ns from the Unix epoch ({}): {}", ns, via, p)))),
         Err(p) => return (8, Some((format!("panic:{}:{}", via, panic_site(&p)), format!("{} ns from the Unix epoch ({}) panicked: {}", ns, via, p)))),
     };
     let rn = to_ns(r);
@@ -126,7 +129,7 @@ pub fn run(tier: Tier) -> i32 {
     let mut rep = Report::new("C18", tier, "model_checking");
     rep.assume("x86-64 Linux SystemTime (i64 seconds + nanoseconds); platform extremes are reached with checked_add/checked_sub");
     rep.assume("the lattice between the anchors is regular, not random: the conversion is piecewise linear with breakpoints only at tick and second boundaries and at the saturation ends, which the anchor neighbourhoods cover tick by tick");
-    let radius: i128 = if tier.thorough() { 2000 } else { 200 };
+    let radius: i128 = if tier.thorough() { 20000 } else { 200 };
     let an = anchors();
 
     // ---- in-memory: every tick in +-radius around each anchor x sub-tick ns
@@ -151,7 +154,7 @@ pub fn run(tier: Tier) -> i32 {
                         }
                     } else if c != 9 {
                         // monotonic on consecutive points
-                        let r = to_ns(set_get(&mut pk, from_ns(ns).unwrap()).unwrap());
+                        let r = match set_get(&mut pk, from_ns(ns).unwrap()) { Ok(t) => to_ns(t), Err(_) => continue };
                         if let Some((pns, pr)) = prev {
                             if pns <= ns && pr > r && vs.len() < 50 {
                                 vs.push(("not-monotonic:memory".into(), format!("{} ns -> {} but later {} ns -> {}", pns, pr, ns, r), ns));
@@ -208,7 +211,7 @@ pub fn run(tier: Tier) -> i32 {
     }
 
     // ---- lattice of whole seconds between 1601 and 60056 -------------------
-    let lattice_n: i128 = if tier.thorough() { 10_000_000 } else { 1_000_000 };
+    let lattice_n: i128 = if tier.thorough() { 60_000_000 } else { 1_000_000 };
     let span = HI_NS - LO_NS;
     let step = span / lattice_n;
     let chunks: Vec<i128> = (0..64).collect();
@@ -236,7 +239,7 @@ pub fn run(tier: Tier) -> i32 {
                             vs.push((sig, d, ns));
                         }
                     } else {
-                        let r = to_ns(set_get(&mut pk, from_ns(ns).unwrap()).unwrap());
+                        let r = match set_get(&mut pk, from_ns(ns).unwrap()) { Ok(t) => to_ns(t), Err(_) => continue };
                         if let Some((pns, pr)) = prev {
                             if pns <= ns && pr > r && vs.len() < 20 {
                                 vs.push(("not-monotonic:memory".into(), format!("{} ns -> {} but later {} ns -> {}", pns, pr, ns, r), ns));
@@ -298,8 +301,8 @@ pub fn run(tier: Tier) -> i32 {
     rep.set("reopen_points", reopen_points.len());
     rep.set("exhaustive", true);
     rep.set("rule", "for each of 71 anchors (1601, 1970, tick max, i64 max, every 2^k ticks, 3 calendar years): every tick within the radius x every sub-tick nanosecond 0..199 (set, get, set again, monotonic on consecutive points); platform SystemTime extremes; a regular lattice of whole seconds x 5 nanosecond values between 1601 and 60056; anchor neighbourhoods and extremes also through save + reopen. distinct_nontrivial = points inside or beyond the range that the platform can represent (each is a distinct time)");
-    rep.sample(json!({"set_ns": -1, "got_ns": to_ns(set_get(&mut mk(), from_ns(-1).unwrap()).unwrap()).to_string()}));
-    rep.sample(json!({"set_ns": (LO_NS - 1).to_string(), "got_ns": to_ns(set_get(&mut mk(), from_ns(LO_NS - 1).unwrap()).unwrap()).to_string()}));
+    rep.sample(json!({"set_ns": -1, "got_ns": set_get(&mut mk(), from_ns(-1).unwrap()).map(|t| to_ns(t).to_string()).unwrap_or_default()}));
+    rep.sample(json!({"set_ns": (LO_NS - 1).to_string(), "got_ns": set_get(&mut mk(), from_ns(LO_NS - 1).unwrap()).map(|t| to_ns(t).to_string()).unwrap_or_default()}));
     rep.finish()
 }
 
